@@ -9,6 +9,7 @@ itself) then
 which is an inductive invariant generated mechanically (iteration *order* is abstracted).
 """
 from __future__ import annotations
+from .core import forall
 import ast
 from .core import (z3, PyVal, A, C, VABSENT, StringSort, IntSort, BoolSort, SeqPV, mk_bool, mk_str, mk_int, mk_list,
                    simp, is_tag)
@@ -30,6 +31,13 @@ class GenExp:
     def __init__(self, node, frame):
         self.node = node
         self.frame = frame
+
+
+class SymText:
+    """Iteration over the characters / octets of symbolic text."""
+    def __init__(self, t, tg):
+        self.t = t
+        self.tg = tg
 
 
 class SymEnumerate:
@@ -55,7 +63,7 @@ def nth_bridge(ctx, seq):
         return
     ctx.ghost[key] = True
     i = z3.Const("i!nth", IntSort)
-    ctx.axiom(z3.ForAll([i], z3.Implies(z3.And(i >= 0, i < z3.Length(seq)), Nth(seq, i) == seq[i]), patterns=[Nth(seq, i)]),
+    ctx.axiom(forall([i], z3.Implies(z3.And(i >= 0, i < z3.Length(seq)), Nth(seq, i) == seq[i]), patterns=[Nth(seq, i)]),
               "Nth(seq, i) = seq[i] for 0 <= i < len(seq)")
 
 
@@ -84,6 +92,11 @@ def generic_element(interp, it, name="e"):
         el = Nth(it.seq, i)
         nth_bridge(ctx, it.seq)
         return Generic(i, z3.And(i >= 0, i < z3.Length(it.seq)), SVal(el), el, z3.Length(it.seq))
+    if isinstance(it, SymText):
+        i = z3.Const(B.fresh_bv("i"), IntSort)
+        ch = z3.SubString(it.t, i, 1)
+        val = SVal(mk_str(ch)) if it.tg == "vstr" else SVal(mk_int(z3.StrToCode(ch)))
+        return Generic(i, z3.And(i >= 0, i < z3.Length(it.t)), val, None, z3.Length(it.t))
     if isinstance(it, SymEnumerate):
         from .core import Nth
         i = z3.Const(B.fresh_bv("i"), IntSort)
@@ -105,7 +118,7 @@ def concrete_items(interp, it):
         return None
     if isinstance(it, (tuple, str, bytes)):
         return list(it)
-    if isinstance(it, SymEnumerate):
+    if isinstance(it, (SymEnumerate, SymText)):
         return None
     if isinstance(it, HObj):
         f = interp.class_lookup(it.cls, "__iter__")
@@ -129,7 +142,7 @@ def _iterable(interp, v):
         if tg in ("vnone", "vint", "vbool", "vfloat"):
             interp.raise_(TypeError, "object is not iterable")
         if tg in ("vstr", "vbytes"):
-            raise Unsupported("iteration over symbolic text")
+            return SymText(interp.text_term(v), tg)
         raise Unsupported("iteration over %s" % tg)
     if v is None or isinstance(v, (int, float)):
         interp.raise_(TypeError, "object is not iterable")
@@ -149,7 +162,8 @@ def exec_for(interp, s, frame):
     from .interp import _Break, _Continue, Env
     it = _iterable(interp, interp.eval(s.iter, frame))
     items = concrete_items(interp, it)
-    if items is not None and (len(items) <= UNROLL_LIMIT or interp.ctx.frozen and False):
+    in_harness = str(frame.clo.glob.get("__name__", "")).startswith(("props", "pyvc.api"))
+    if items is not None and (len(items) <= UNROLL_LIMIT or in_harness):
         return unroll(interp, s, frame, items)
     if items is not None:
         try:
@@ -264,7 +278,7 @@ def foreach_generic(interp, s, frame, g):
     ctx = interp.ctx
     outs = summarize(interp, _body_thunk(interp, s, frame, g.value, g.member), bound=[g.bv], site=(id(s), 'forg'))
     normal = disj([o.cond() for o in outs if o.kind in ("normal", "continue")])
-    allnormal = z3.ForAll([g.bv], z3.Implies(g.member, normal), patterns=[g.pattern] if g.pattern is not None else [])
+    allnormal = forall([g.bv], z3.Implies(g.member, normal), patterns=[g.pattern] if g.pattern is not None else [])
     star = ctx.fresh("elem", g.bv.sort())
     mem_star = z3.substitute(g.member, (g.bv, star))
     alts = [("normal", allnormal, None)]
@@ -390,7 +404,7 @@ def eval_comprehension(interp, node, frame, kind):
         keep = disj([o.cond() for o in outs if o.kind == "normal" and o.value[0] == "keep"])
         r = ctx.fresh("setcomp", z3.ArraySort(StringSort, BoolSort))
         pats = [z3.Select(r, g.bv)] + ([g.pattern] if g.pattern is not None else [])
-        ctx.axiom(z3.ForAll([g.bv], z3.Select(r, g.bv) == z3.And(g.member, keep), patterns=pats),
+        ctx.axiom(forall([g.bv], z3.Select(r, g.bv) == z3.And(g.member, keep), patterns=pats),
                   "set comprehension as a predicate subset")
         return HSet(pred=r)
     if kind == "list":
@@ -408,7 +422,7 @@ def eval_comprehension(interp, node, frame, kind):
         from .core import Nth
         ctx.axiom(z3.Length(r) == src_len, "list comprehension preserves length")
         pats = [Nth(r, g.bv)] + ([g.pattern] if g.pattern is not None else [])
-        ctx.axiom(z3.ForAll([g.bv], z3.Implies(g.member, Nth(r, g.bv) == val), patterns=pats),
+        ctx.axiom(forall([g.bv], z3.Implies(g.member, Nth(r, g.bv) == val), patterns=pats),
                   "list comprehension element-wise definition")
         nth_bridge(ctx, r)
         return HList(seq=r)
@@ -428,7 +442,7 @@ def _abrupt_alternatives(interp, outs, g):
     if not groups:
         return
     ok = disj([o.cond() for o in outs if o.kind == "normal"])
-    alts = [z3.ForAll([g.bv], z3.Implies(g.member, ok), patterns=[g.pattern] if g.pattern is not None else [])]
+    alts = [forall([g.bv], z3.Implies(g.member, ok), patterns=[g.pattern] if g.pattern is not None else [])]
     star = ctx.fresh("elem", g.bv.sort())
     mem_star = z3.substitute(g.member, (g.bv, star))
     classes = list(groups)
@@ -495,7 +509,7 @@ def quant_over(interp, v, is_all):
         pats = [g.pattern] if g.pattern is not None else []
         if is_all:
             body = disj(sat_parts + skip_parts)
-            return boolval(interp, z3.ForAll([g.bv], z3.Implies(g.member, body), patterns=pats))
+            return boolval(interp, forall([g.bv], z3.Implies(g.member, body), patterns=pats))
         body = disj(sat_parts)
         return boolval(interp, z3.Exists([g.bv], z3.And(g.member, body)))
     v = _iterable(interp, v)
@@ -520,5 +534,5 @@ def quant_over(interp, v, is_all):
     tt = interp.truth_term(g.value if not isinstance(g.value, tuple) else g.value)
     tt = z3.BoolVal(tt) if isinstance(tt, bool) else tt
     if is_all:
-        return boolval(interp, z3.ForAll([g.bv], z3.Implies(g.member, tt)))
+        return boolval(interp, forall([g.bv], z3.Implies(g.member, tt)))
     return boolval(interp, z3.Exists([g.bv], z3.And(g.member, tt)))
